@@ -35,6 +35,9 @@ func verifyFunc(L *Loaded, db *ContractDB, fn *ssa.Function, fc *FuncContract) *
 	x.analyzed(fn)
 	x.analyzeLoops(fn)
 	key := x.funcKeyOf(fn)
+	if fc.Base != "" {
+		key = fc.Key
+	}
 	res := &FuncResult{Key: key}
 	func() {
 		defer func() {
@@ -83,6 +86,14 @@ func verifyFunc(L *Loaded, db *ContractDB, fn *ssa.Function, fc *FuncContract) *
 		x.enterBlock(st, fn.Blocks[0], nil)
 		x.run(st)
 	}()
+	x.emitConsistency(key)
+	for l, cls := range fc.Asserts {
+		for _, cl := range cls {
+			if !x.assertHit[l+"/"+cl.Name] && len(x.errs) == 0 {
+				x.errs = append(x.errs, fmt.Sprintf("%s: ghost assert %s %s was evaluable after no call on any explored path", key, l, cl.Name))
+			}
+		}
+	}
 	// finalise scripts: prelude + global decls + string/tag facts + path script
 	header := x.header()
 	for _, ob := range x.obs {
@@ -182,6 +193,10 @@ func (x *Exec) checkModifies(st *State, fn *ssa.Function, fc *FuncContract, env 
 	x.frameMode = false
 	_ = all
 	allowed := map[string]bool{}
+	if env.results == nil {
+		env.results = dummyResults(fn.Signature)
+		defer func() { env.results = nil }()
+	}
 	for _, m := range fc.Modifies {
 		for _, hn := range x.modItemHeaps(m, env) {
 			allowed[hn] = true
@@ -217,6 +232,9 @@ func (x *Exec) atReturn(st *State, res []Val) {
 		}
 	}
 	key := x.funcKeyOf(x.fn)
+	if len(x.fc.Ensures) > 0 {
+		x.reachPoint(st, "return-reachable", "some returning path is satisfiable")
+	}
 	// a path that returns before a focus condition became evaluable is checked unconditionally (stronger)
 	var ri *ReplayInfo
 	if len(st.stack) == 1 && replayable(x.fn) {
